@@ -376,6 +376,7 @@ def run(world, tier, info, only=None):
     _connect_check_independent_of_direction(ck, w)
     _assign_inference(ck, w)
     _function_result_domain(ck, w)
+    _function_output_domain(ck, w)
     # ---------------- R5 must-call table ----------------------------------------------------------------------
     for p, why in sorted(MUST_CALL.items()):
         if p not in w.fns:
@@ -815,6 +816,42 @@ def _function_result_domain(ck, w):
     ck.ob("R9", "function/result-domain-from-return-variable", ok, site(*where) if where else site(sm),
           "the body conversion returns the domain found in the return variable's path entry (Context::find_path(get_return_str()))" if ok else
           "no closure of conv_function hands the return variable's domain (Context::find_path of get_return_str()) back to the converter")
+
+
+def _function_output_domain(ck, w):
+    """R9b: the same for output arguments: conv_function's body closure refreshes the clock_domain of every argument member from its
+    path entry after the body was converted, and function_call checks each output destination against that member's comptime."""
+    P = "veryl_analyzer::conv::declaration::conv_function"
+    FC = "veryl_analyzer::conv::utils::function_call"
+    ok_w = False
+    where = None
+    for q, x in sorted(w.fns.items()):
+        if not q.startswith(P + "::{closure") or x.get("alias_of"):
+            continue
+        gq = Fn(w.mir(q))
+        for bi, si, st in flow.field_writes(gq, r"ir::comptime::Comptime$|ir::Comptime$", "clock_domain"):
+            rv = st[2]
+            if rv[0] == "use" and rv[1][0] != "k" and any(y[0] == "call" and (y[1] or "").endswith("Context::find_path") for y in gq.prov(rv[1], depth=16)):
+                ok_w = True
+                where = (x, st[3])
+    ck.ob("R9", "function/output-argument-domain-refreshed", ok_w, site(*where) if where else (site(w.fns[P]) if P in w.fns else ""),
+          "after the body was converted the argument members take the clock_domain found in their path entries" if ok_w else
+          "conv_function never refreshes the argument members' clock_domain from the converted body: an output argument written from a "
+          "module signal (`function g(r: output logic) { r = i_a; }`) reaches the caller without its domain")
+    ok_c = False
+    where = None
+    for q, x in sorted(w.fns.items()):
+        if not (q == FC or q.startswith(FC + "::{closure")) or x.get("alias_of"):
+            continue
+        gq = Fn(w.mir(q))
+        for bi, t in gq.calls("^" + re.escape(K) + "$"):
+            d = repr(gq.describe(t["args"][2], 10))
+            if "Iterator::find" in d and ("members" in d or "flat_map" in d):
+                ok_c = True
+                where = (x, t["l"])
+    ck.ob("R9", "function/output-destination-checked-against-member", ok_c, site(*where) if where else (site(w.fns[FC]) if FC in w.fns else ""),
+          "function_call checks every output destination against the callee-side member found for that argument" if ok_c else
+          "function_call checks output destinations against the merged input domains only")
 
 
 def _matches_join(g, b):
